@@ -29,6 +29,8 @@ ASSUMPTIONS = [
     "diagnostics are made to fail the way a user-installed raising logging.Handler / `-W error` would; the check does not require that the library emits any",
     "nested loads are counted by wrapping the read_sunvox_file names imported into rv.modules.metamodule / rv.modules.sampler (the wrapper calls the original)",
 ]
+# classes of cases that are produced deterministically: their absence is a harness error (see vlib.harness)
+HARD_LABELS = ['read_fault_raised', 'chunk_fault_raised', 'truncated', 'path_access', 'flag_initially_false', 'named_as_direntry', 'warnings_as_errors']
 REQUIRED_LABELS = {
     "quick": ["read_fault_raised", "chunk_fault_raised", "fault_in_nested_load", "truncated", "semantic_failure", "path_access", "flag_initially_false", "path_bad_file", "diagnostic_fault_raised", "warnings_as_errors", "lenient_load_with_out_of_range_values", "read_fault_kind_ESTALE", "read_fault_kind_InjectedBaseFault", "read_fault_kind_MemoryError", "named_as_direntry", "named_as_bytes"],
     "thorough": ["read_fault_raised", "chunk_fault_raised", "fault_in_nested_load", "truncated", "semantic_failure", "path_access", "flag_initially_false", "diagnostic_fault_raised", "warnings_as_errors", "lenient_load_with_out_of_range_values"],
